@@ -479,10 +479,11 @@ def directed_holds(shard, nshards, binary, tier):
     return res
 
 
-def stress(wseed, binary, budget_s):
-    """4 writers rewriting uniquely versioned keys, BGSAVE in a loop, every dump loaded and checked."""
+def stress(wseed, binary, budget_s, auto=False):
+    """4 writers rewriting uniquely versioned keys, BGSAVE in a loop (or, with auto=True, the
+    server's own auto-save rule `save 1 1` firing about once a second), every dump loaded and checked."""
     res = Result()
-    srv = server.Server(binary, config_text="save \"\"\n").start()
+    srv = server.Server(binary, config_text="save 1 1\n" if auto else "save \"\"\n").start()
     stop = threading.Event()
     hist = {}          # key -> list of (version repr, has_ttl, t_send, t_ack)
     lock = threading.Lock()
@@ -529,13 +530,20 @@ def stress(wseed, binary, budget_s):
         while time.time() < t_end:
             s0 = time.monotonic()
             started0 = saves_started(ctl)
-            r = ctl.cmd("BGSAVE")
-            if isinstance(r, Err):
-                time.sleep(0.01)
-                continue
-            if not wait_saves_done(ctl, 60, started_before=started0):
-                res.violation("stress/save-stuck", "BGSAVE under write load never finished")
-                break
+            if auto:
+                # nobody asks for a save: the monitor thread must start one by itself; the window in
+                # which it ran is only known to lie between these two observations
+                if not wait_saves_done(ctl, 15, started_before=started0):
+                    res.inconclusive.append("no auto-save completed within 15 s under write load (rule: save 1 1)")
+                    break
+            else:
+                r = ctl.cmd("BGSAVE")
+                if isinstance(r, Err):
+                    time.sleep(0.01)
+                    continue
+                if not wait_saves_done(ctl, 60, started_before=started0):
+                    res.violation("stress/save-stuck", "BGSAVE under write load never finished")
+                    break
             s1 = time.monotonic()
             dump = read_dump(srv)
             nsaves += 1
@@ -589,7 +597,9 @@ def stress(wseed, binary, budget_s):
             res.count("stress_keys_checked", checked)
         res.count("stress_saves", nsaves)
         res.cell("stress", "saves>5" if nsaves > 5 else "saves<=5")
-        res.cell("stress", "bgsave-under-4-writers")
+        res.cell("stress", "auto-save-under-4-writers" if auto else "bgsave-under-4-writers")
+        if auto:
+            res.count("stress_auto_saves", nsaves)
     finally:
         stop.set()
         for t in threads:
@@ -611,6 +621,8 @@ def _w(arg, binary, tier, nshards, seed):
         return os_faults(shard, nshards, binary, tier)
     if role == "stress":
         return stress(seed * 10 + shard, binary, 15 if tier == "quick" else 120)
+    if role == "stress-auto":
+        return stress(seed * 10 + 5 + shard, binary, 12 if tier == "quick" else 60, auto=True)
     if role == "loader":
         rsbin_budget = 15 if tier == "quick" else 90
         return rsbin.worker((seed * 10 + shard, rsbin_budget, tier), "rdbload", [], rsbin_budget * 6 + 300, prefix="loader/")
@@ -623,13 +635,13 @@ def run(tier):
     binary, bt = server.build("dev")
     rsbin.build()
     args = [("fault", i) for i in range(6)] + [("abort", i) for i in range(3)] + [("hold", i) for i in range(5)] + \
-           [("stress", 0)] + [("loader", 0)] + [("osfault", i) for i in range(4)]
+           [("stress", 0)] + [("stress-auto", 0)] + [("loader", 0)] + [("osfault", i) for i in range(4)]
     res = Result()
     for role, count in (("fault", 6), ("abort", 3), ("hold", 5)):
         pass
     # each role is sharded over its own number of workers
     def nsh(role):
-        return {"fault": 6, "abort": 3, "hold": 5, "stress": 1, "loader": 1, "osfault": 4}[role]
+        return {"fault": 6, "abort": 3, "hold": 5, "stress": 1, "stress-auto": 1, "loader": 1, "osfault": 4}[role]
     jobs = []
     for role, shard in args:
         jobs.append((role, shard))
@@ -648,7 +660,7 @@ def run(tier):
                        "byte-identical, flag cleared, next SAVE works) and once with the default action (the kernel kills the server at "
                        "that write: restart loads exactly the last completed dump); B: save thread parked "
                        "at {before-get, between-get-and-ttl, after-key, zset-len-range} x six types x 11 client actions x "
-                       "{TTL, no TTL}, SAVE during a parked BGSAVE, and BGSAVE in a loop under 4 writers of uniquely versioned "
+                       "{TTL, no TTL}, SAVE during a parked BGSAVE, and BGSAVE in a loop (and, separately, the auto-save rule `save 1 1`) under 4 writers of uniquely versioned "
                        "keys - every dump loaded in a second child, each key must be a (value, TTL-presence) pair it had at one "
                        "instant during the save; C: every prefix and 14 single-byte substitutions at every offset of 4 (quick) / "
                        "21 (thorough) valid dumps loaded in-process under catch_unwind + counting allocator + watchdog; thorough: "
